@@ -113,7 +113,7 @@ func c09Generate(c *mon.Ctx) {
 		emit(new(big.Int).SetBytes(b), "fold-resonant")
 	}
 
-	for _, v := range gen.Raw256(n) {
+	for _, v := range append(gen.Raw256(n), gen.UnitDigitTuples(n)...) {
 		emit(v.X, "below-2^256:"+v.Class)
 		emit(new(big.Int).Add(new(big.Int).Lsh(v.X, 128), v.X), "spread:"+v.Class)
 	}
